@@ -2,7 +2,7 @@
 From Coq Require Import ZArith List Bool Reals.
 From Flocq Require Import Core IEEE754.BinarySingleNaN.
 From KV Require Import Base.IEEE Base.Outcome C13.ModelOps C13.ModelEffects C13.ModelDelay C13.ModelTree
-     C13.ProofsSeq C13.ProofsLaws C13.ProofsInst C13.ProofsB32 C13.ProofsLinear.
+     C13.ProofsSeq C13.ProofsLaws C13.ProofsInst C13.ProofsB32 C13.ProofsLinear C13.ProofsRate.
 Import ListNotations.
 Open Scope ops_scope.
 
@@ -225,3 +225,27 @@ Theorem volume_0dB_identity_b32 :
     is_finite (fst x) = true -> is_finite (snd x) = true ->
     volume_step (db_amp pw (eff db)) x = x.
 Proof. exact volume_0dB_identity_b32. Qed.
+
+(** Reals: the filter's stability clamp follows the rate in force.  At or above the Nyquist frequency of the
+    CURRENT [dt] the coefficients no longer depend on the cutoff (they are those of the Nyquist frequency), for
+    every [dt] -- nothing of an earlier device rate enters. *)
+Theorem filter_above_nyquist_R :
+  forall (cpi c1e4 chalf c1p9 : R) (tan : R -> R) (cutoff cutoff' res dt : R),
+    (c1e4 <= chalf)%R ->
+    (chalf <= cutoff / (1 / dt))%R -> (chalf <= cutoff' / (1 / dt))%R ->
+    filter_coeffs cpi c1e4 chalf c1p9 tan cutoff res dt = filter_coeffs cpi c1e4 chalf c1p9 tan cutoff' res dt.
+Proof. exact filter_above_nyquist_R. Qed.
+
+(** Same for the EQ filter (bell, low shelf, high shelf). *)
+Theorem eq_above_nyquist_R :
+  forall (cpi c1e4 chalf cminq : R) (tan pow10 : R -> R) (kind : eqkind) (f f' q gain dt : R),
+    (c1e4 <= chalf)%R ->
+    (chalf <= f * dt)%R -> (chalf <= f' * dt)%R ->
+    eq_coeffs cpi c1e4 chalf cminq tan pow10 kind f q gain dt = eq_coeffs cpi c1e4 chalf cminq tan pow10 kind f' q gain dt.
+Proof. exact eq_above_nyquist_R. Qed.
+
+(** The relative frequency handed to [tan] (times pi) is always inside the clamp's range, whatever the
+    cutoff and the rate. *)
+Theorem relative_cutoff_pinned_R :
+  forall x lo hi : R, (lo <= hi)%R -> (lo <= oclamp x lo hi <= hi)%R.
+Proof. exact oclamp_range_R. Qed.
